@@ -607,7 +607,13 @@ class JSONRPCConnection:
 
     def _receive_response(self, result, request_id):
         # True == 1 and False == 0, but a bool is never an ID we issued
-        if isinstance(request_id, bool) or request_id not in self._requests:
+        try:
+            known = (not isinstance(request_id, bool)
+                     and request_id in self._requests)
+        except TypeError:
+            # an unhashable ID (JSONRPCv1 does not constrain the type) cannot be ours
+            known = False
+        if not known:
             if request_id is None and isinstance(result, RPCError):
                 message = f'diagnostic error received: {result}'
             else:
